@@ -19,10 +19,22 @@ MANIFEST = dict(
           "constrained ones run on registered and generated functions with the NANO_VERIF done() hooks and their traces "
           "must be accepted. Direct oracle with a recording wrapper function: value/gradient at the returned point, call "
           "counts, finiteness, not worse than the start, budget overshoot. Termination and the per-iteration evaluation "
-          "bound of the solver bodies are searched, not proved."),
+          "bound of the solver bodies are searched, not proved -- EXCEPT for the line-search solvers (extension, stage lsloop): "
+          "the whole do_minimize of gd.cpp and the common skeleton of cgd/lbfgs/quasi.cpp are inside the model (ls_solver_run = "
+          "C02's state/done composed with C07's bit-exact line searches; objective, g.d, direction rule and lsearch0 are oracles) "
+          "and, for every oracle: termination with at most max_evals - 1 + 2*ls_bound + 1 evaluations, the returned triple is "
+          "an answer of the oracle at the returned point, with an Armijo-type search (backtrack, lemarechal, fletcher) every "
+          "accepted iterate has f_{k+1} <= f_k in binary64 (Flocq) hence f(returned) <= f(x0) unless failed or converged after "
+          "a failed search (the stronger statement is refuted with a witness), CG_DESCENT's slack, status facts. Tie: 600 "
+          "(thorough 12000) whole runs of the real gd / cgd-* / lbfgs / quasi solvers with a recording function and a "
+          "recording lsearch0: the extracted model must request exactly the recorded evaluation points bit for bit and end "
+          "in the same state, status and counters."),
     note=("Coq kernel; Flocq + FloatAxioms (binary64 = PrimFloat); translator (31 kernels); extraction (ExtrOcamlBasic + "
           "ExtrOCamlFloats); harness + OCaml driver; NANO_VERIF hooks in solver.cpp/augmented.cpp/random.cpp (add-only); "
-          "Eigen reductions are inputs, only max-abs / scalar code is recomputed bit-exactly; NDEBUG build."),
+          "Eigen reductions are inputs, only max-abs / scalar code is recomputed bit-exactly; NDEBUG build. Extension lsloop: "
+          "+ C07's model/kernels/PrimFloat reading, 4 kernels (final return of gd/cgd/lbfgs/quasi), harness c02_lsloop.cpp, "
+          "driver c02ls_driver.ml; 'accepted steps are not negative and the Armijo bound is finite' is a ghost flag of the "
+          "model, searched on the implementation."),
     technique="Coq proof over a translated+extracted binary64 model, differential correspondence, trace acceptance, direct oracle with a recording function",
     design="DESIGN.md section 2, C02")
 
@@ -46,6 +58,11 @@ def _ensure_numeric():
 def setup():
     vlib.build_harness(HARNESS, "rel")
     vlib.build_ocaml("c02_driver", "c02_model.ml", "c02_driver.ml", floats=True)
+    vlib.build_harness("c02_lsloop", "rel")
+    try:
+        vlib.build_ocaml("c02ls_driver", "c02ls_model.ml", "c02ls_driver.ml", floats=True)
+    except (vlib.CheckError, OSError):
+        pass
 
 
 def run_block(lines, rid):
@@ -73,10 +90,21 @@ def seq_block(lines, sid, upto):
     return out[-40:]
 
 
-def run_shared(pid, mode, tier, extra_trusted, unproved, assumptions):
+def run_shared(pid, mode, tier, extra_trusted, unproved, assumptions, pre_coq=None, coq_targets=(), stage=None):
+    """pre_coq(): called before the Coq build; coq_targets: additional .vo targets; stage(r, cres) -> dict merged into the
+    coverage (an additional, separately named part of the check: tools/checks/c02.py uses it for the line-search loop)"""
     r = vlib.Run(pid, tier)
     _ensure_numeric()
-    cres = vlib.coq_check(pid, targets=["theories/Extract_C02.vo", "theories/Properties_%s.vo" % pid])
+    pre_err = None
+    if pre_coq:
+        try:
+            pre_coq()
+        except (vlib.CheckError, OSError) as ex:
+            pre_err = str(ex)
+    cres = vlib.coq_check(pid, targets=["theories/Extract_C02.vo"] + list(coq_targets) + ["theories/Properties_%s.vo" % pid])
+    if pre_err and cres["ok"]:
+        cres["ok"] = False
+        cres["broken"] = "float-reading:" + pre_err
     exe = vlib.build_harness(HARNESS, "rel")
     drv = None
     try:
@@ -135,6 +163,7 @@ def run_shared(pid, mode, tier, extra_trusted, unproved, assumptions):
             if ms:
                 payload["sequence"] = seq_block(lines, ms.group(2), ms.group(1))
             r.violation("corr-%d" % i, payload)
+    stage_cov = stage(r, cres) if stage else {}
     vlib.handle_coq_failure(r, cres)
     vlib.proof_coverage(r, cres, "make -C coq theories/Properties_%s.vo && coqc theories/Properties_%s.v (Print Assumptions)" % (pid, pid),
                         ["tools/translate.py (31 kernels: solver_t::done decision, value_test indices, vgrad counters, 18 budget-loop conditions)",
@@ -184,8 +213,152 @@ def run_shared(pid, mode, tier, extra_trusted, unproved, assumptions):
     smp = [l[:300] for l in lines if l.startswith(("S 3 B", "S 3 T", "RUN 5 ", "RET 5 ", "ORA 5 "))][:8]
     cov["samples"] = smp or [l[:300] for l in lines[:5]]
     cov["unproved_clauses_searched"] = list(unproved)
+    if stage_cov:
+        cov["evaluations"] = cov.get("evaluations", 0) + stage_cov.pop("_evaluations", 0)
+        cov["distinct_nontrivial"] = cov.get("distinct_nontrivial", 0) + stage_cov.pop("_distinct", 0)
+        cov["trusted_base"] = list(cov.get("trusted_base", [])) + stage_cov.pop("_trusted", [])
+        cov.update(stage_cov)
     r.assumptions = list(assumptions)
     return r.finish("proof")
+
+
+# ------------------------------------------------------------------------------------------------------------------------
+# stage "lsloop": whole runs of the real line-search solvers replayed by the extracted ls_solver_run (C02_LsLoop_Defs.v)
+# ------------------------------------------------------------------------------------------------------------------------
+LS_HARNESS = "c02_lsloop"
+
+
+def _pre_coq_lsloop():
+    """C02_LsLoop_Defs imports C07_Defs, which imports the PrimFloat reading of the C07 kernels (generated by
+    tools/checks/c07.py from Src_c07.v): regenerate both from the working tree before the Coq build"""
+    import translate
+    import c07
+    try:
+        translate.run("C02")
+    except translate.TranslateError:
+        pass  # reported by coq_check (same call, same error)
+    c07.gen_float_twin()
+
+
+def _ls_block(path, rid, limit=60):
+    out, on = [], False
+    try:
+        with open(path) as f:
+            for l in f:
+                l = l.rstrip("\n")
+                t = l.split(" ", 2)
+                if len(t) > 1 and t[1] == rid and (t[0].startswith("LS") or t[0] == "FAIL"):
+                    on = True
+                    out.append(l[:700])
+                    if t[0] == "LSEND":
+                        break
+                elif on and t[0] == "LSRUN":
+                    break
+    except OSError:
+        pass
+    if len(out) > limit:
+        out = out[:14] + ["... (%d lines omitted)" % (len(out) - 40)] + out[-26:]
+    return out
+
+
+def stage_lsloop(r, cres):
+    import shlex
+    exe = vlib.build_harness(LS_HARNESS, "rel")
+    drv = None
+    try:
+        drv = vlib.build_ocaml("c02ls_driver", "c02ls_model.ml", "c02ls_driver.ml", floats=True)
+    except (vlib.CheckError, OSError):
+        if cres["ok"]:
+            raise
+    rundir = os.path.join(vlib.WORK, "c02ls")
+    os.makedirs(rundir, exist_ok=True)
+    out_path = os.path.join(rundir, "run-%d-%s.txt" % (r.seed, r.tier))
+    rc, err = vlib.sh("%s %s > %s" % (shlex.quote(exe), shlex.quote(r.tier), shlex.quote(out_path)), timeout=3000,
+                      env={"VERIF_SEED": str(r.seed)})
+    replay_cmd = "VERIF_SEED=%d %s %s" % (r.seed, exe, r.tier)
+    fails, done, hist, nruns, cands = [], "", "", 0, []
+    with open(out_path) as f:
+        for l in f:
+            if l.startswith("FAIL "):
+                fails.append(l.rstrip("\n"))
+            elif l.startswith("CAND "):
+                cands.append(l.strip()[:300])
+            elif l.startswith("DONE "):
+                done = l.strip()
+            elif l.startswith("LSHIST"):
+                hist = l.strip()
+            elif l.startswith("LSRUN "):
+                nruns += 1
+    if rc != 0 or not done:
+        r.violation("lsloop-crash", {"kind": "implementation crashed / did not terminate in a whole solver run (exit %s)" % rc,
+                                     "tail": err[-1500:], "replay_cmd": replay_cmd}, fingerprint="lsloop-crash")
+    seen = set()
+    for l in fails:
+        m = re.match(r"FAIL (\d+) (\S+)", l)
+        rid, clause = (m.group(1), m.group(2)) if m else ("?", "?")
+        if clause in seen or len(seen) >= 4:
+            continue
+        seen.add(clause)
+        blk = _ls_block(out_path, rid)
+        solver = blk[0].split(" ")[2] if blk else "?"
+        r.violation("lsloop-impl-%s" % clause[:40], {"kind": "direct property check failed on a whole run of the implementation",
+                                                     "clause": clause, "what": l[:600], "run": blk,
+                                                     "replay_cmd": replay_cmd + " " + rid},
+                    fingerprint="lsloop:%s:%s" % (solver, clause))
+    stats, dhist, mism, pf = {}, "", [], []
+    if drv:
+        rc2, mout = vlib.sh("%s < %s" % (shlex.quote(drv), shlex.quote(out_path)), timeout=3000)
+        for l in mout.split("\n"):
+            if l.startswith("MISMATCH"):
+                mism.append(l)
+            elif l.startswith("PROPFAIL"):
+                pf.append(l)
+            elif l.startswith("HIST "):
+                dhist = l[5:]
+            elif l.startswith("MODEL-DONE"):
+                stats = {k: int(v) for k, v in re.findall(r"(\w+)=(\d+)", l)}
+        if rc2 != 0 or not stats.get("checked"):
+            r.violation("lsloop-driver", {"kind": "model driver failed", "out": mout[-2000:]}, no_input=True)
+        for i, l in enumerate(pf[:3]):
+            m = re.search(r"RUN (\d+)", l)
+            r.violation("lsloop-prop-%d" % i, {"kind": "conclusion of a C02_lsloop theorem fails on the recorded run of the implementation",
+                                               "what": l[:1500], "run": _ls_block(out_path, m.group(1)) if m else [],
+                                               "replay_cmd": replay_cmd + (" " + m.group(1) if m else "")})
+        for i, l in enumerate(mism[:3]):
+            m = re.search(r"RUN (\d+)", l)
+            r.violation("lsloop-corr-%d" % i, {"kind": "the extracted ls_solver_run and the real solver disagree on a whole run",
+                                               "what": l[:1500], "run": _ls_block(out_path, m.group(1)) if m else [],
+                                               "replay_cmd": replay_cmd + (" " + m.group(1) if m else "")})
+    samples = []
+    with open(out_path) as f:
+        for l in f:
+            if l.startswith(("LSRUN 7 ", "LSIT 7 0 ", "LSDN 7 ", "LSRET 7 ")):
+                samples.append(l.strip()[:260])
+    return {
+        "_evaluations": stats.get("checked", 0),
+        "_distinct": stats.get("line_searches", 0),
+        "_trusted": ["lsloop: harness/c02_lsloop.cpp (recording function_t, recording lsearch0 wrapper, done() hooks), "
+                     "ocaml/c02ls_driver.ml, extraction Extract_C02LS.v; 4 translated kernels (final return of gd/cgd/lbfgs/quasi); "
+                     "C07's model and translated kernels (imported)"],
+        "lsloop_runs_replayed": stats.get("checked", 0),
+        "lsloop_runs": nruns,
+        "lsloop_evaluations_matched_bit_for_bit": stats.get("evaluations", 0),
+        "lsloop_line_searches": stats.get("line_searches", 0),
+        "lsloop_mismatches": len(mism),
+        "lsloop_theorem_mirror_failures": len(pf),
+        "lsloop_impl_direct_failures": len(fails),
+        "lsloop_harness_histogram": hist[7:] if hist else "",
+        "lsloop_candidates_converged_after_failed_line_search_worse_than_start": len(cands),
+        "lsloop_candidate_samples": cands[:4],
+        "lsloop_model_histogram": dhist,
+        "lsloop_rule": ("whole runs: solver in {gd (1/3), cgd-* x10, lbfgs, dfp, sr1, bfgs, hoshino, fletcher} x objective in {22 registered "
+                        "smooth functions, random quadratics, 1-D adversarial (NaN wall, infinite slope, oscillating, double well, overflow, "
+                        "flat, hill, barrier)} optionally restricted to a box (non-finite outside) or scaled by 1e-220..1e-150 / 1e100..1e300 x "
+                        "dims {1,2,3,4,8,16} x lsearchk x max_iterations (1, 1..3, 2..8, 8..40, 128, 20..200) x (c1,c2) x lsearch0 "
+                        "(cgdescent with its value-only trial, constant, linear, quadratic) x epsilon (1e-300..1e-1) x max_evals "
+                        "(10..14, 10..60, 60..200, 20..500/3000); distinct = line searches replayed"),
+        "lsloop_samples": samples[:6],
+    }
 
 
 def run(tier, replay=None):
@@ -204,4 +377,6 @@ def run(tier, replay=None):
          "Eigen's lpNorm<Infinity> on NaN-free vectors = max of absolute values (vectors with NaN are excluded from the "
          "bit-exact comparison of gradient_test and counted as ambiguous_skipped)",
          "the constraint values / multipliers of a state enter valid() as one observed flag",
-         "the gradient-sampling solvers are made deterministic with verif::g_rng_seed"])
+         "the gradient-sampling solvers are made deterministic with verif::g_rng_seed",
+         "lsloop: gx.dot(descent) is taken from the run (Eigen reduction); x + t*d, -gx, the line searches, done() are bit-exact"],
+        pre_coq=_pre_coq_lsloop, coq_targets=["theories/Extract_C02LS.vo"], stage=stage_lsloop)
